@@ -13,9 +13,9 @@ VARIABLES ms, pc, bad, nextScope, emitted
 vars == <<ms, pc, bad, nextScope, emitted>>
 
 Cfgs == {[fw |-> f, nmw |-> n, mwfail |-> mf, handler |-> h, registered |-> rg, method |-> m, recovery |-> rc,
-          scopemw |-> sm, provclosed |-> pcl, batch |-> b, outer |-> ou, closefail |-> cf] :
+          scopemw |-> sm, provclosed |-> pcl, batch |-> b, outer |-> ou, closefail |-> cf, defeh |-> de] :
             f \in Frameworks, n \in 0..MaxMw, mf \in 0..MaxMw, h \in {"ok", "err", "panic", "handle"}, rg \in BOOLEAN,
-            m \in {"ok", "panic"}, rc \in BOOLEAN, sm \in BOOLEAN, pcl \in BOOLEAN, b \in Batches, ou \in BOOLEAN, cf \in BOOLEAN}
+            m \in {"ok", "panic"}, rc \in BOOLEAN, sm \in BOOLEAN, pcl \in BOOLEAN, b \in Batches, ou \in BOOLEAN, cf \in BOOLEAN, de \in BOOLEAN}
 \* drop combinations that only repeat others
 Relevant(c) == /\ c.mwfail <= c.nmw
                /\ (c.handler # "handle" => (c.registered /\ c.method = "ok" /\ ~c.recovery))
@@ -24,6 +24,7 @@ Relevant(c) == /\ c.mwfail <= c.nmw
                /\ (c.batch > 1 => (c.handler \in {"ok", "handle"} /\ c.mwfail = 0 /\ ~c.provclosed))
                /\ (c.outer => (c.scopemw /\ ~c.provclosed /\ c.mwfail = 0 /\ c.handler \in {"ok", "handle"}))
                /\ (c.closefail => (c.scopemw /\ ~c.provclosed /\ ~c.outer /\ c.nmw <= 1))
+               /\ (c.defeh => (c.scopemw /\ (c.provclosed \/ c.mwfail > 0) /\ ~c.outer /\ ~c.closefail))
 
 Reqs(c) == 1..c.batch
 
@@ -40,7 +41,8 @@ Arrive(r) == pc[r] = "new" /\ r \in Reqs(ms.cfg) /\ Feed([ev |-> "req", rq |-> r
              /\ pc' = [pc EXCEPT ![r] = IF ~ms.cfg.scopemw THEN "handler"
                                         ELSE IF ms.cfg.provclosed THEN "errscope" ELSE "mw"]
              /\ UNCHANGED <<nextScope, emitted>>
-ErrScope(r) == pc[r] = "errscope" /\ Feed([ev |-> "errh", rq |-> r, kind |-> "scope"])
+ErrScope(r) == pc[r] = "errscope"
+               /\ (IF DefaultEH(ms.cfg) THEN UNCHANGED <<ms, bad>> ELSE Feed([ev |-> "errh", rq |-> r, kind |-> "scope"]))
                /\ pc' = [pc EXCEPT ![r] = "finish"] /\ UNCHANGED <<nextScope, emitted>>
 MyScope(r) == IF ms.reqs[r].scope = NONE THEN ScopeName(nextScope) ELSE ms.reqs[r].scope
 MyProbe(r) == IF ms.reqs[r].probe = 0 THEN nextScope ELSE ms.reqs[r].probe
@@ -52,7 +54,8 @@ Mw(r) == /\ pc[r] = "mw"
                  /\ pc' = [pc EXCEPT ![r] = IF ms.cfg.mwfail = ms.reqs[r].mws + 1 THEN "errmw" ELSE "mw"]
             ELSE /\ pc' = [pc EXCEPT ![r] = "handler"] /\ UNCHANGED <<ms, bad, nextScope>>
          /\ UNCHANGED emitted
-ErrMw(r) == pc[r] = "errmw" /\ Feed([ev |-> "errh", rq |-> r, kind |-> "mw"])
+ErrMw(r) == pc[r] = "errmw"
+            /\ (IF DefaultEH(ms.cfg) THEN UNCHANGED <<ms, bad>> ELSE Feed([ev |-> "errh", rq |-> r, kind |-> "mw"]))
             /\ pc' = [pc EXCEPT ![r] = "close"] /\ UNCHANGED <<nextScope, emitted>>
 Handler(r) ==
     /\ pc[r] = "handler"
@@ -84,7 +87,7 @@ CloseErr(r) == pc[r] = "closeerr" /\ Feed([ev |-> "closeerrh"]) /\ pc' = [pc EXC
 End == /\ \A r \in Reqs(ms.cfg) : pc[r] = "done"
        /\ ~emitted /\ emitted' = TRUE
        /\ Feed([ev |-> "end"]) /\ UNCHANGED <<pc, nextScope>>
-Finish(r) == pc[r] = "finish" /\ Feed([ev |-> "done", rq |-> r, status |-> 0, panicked |-> PanicEscapes(ms.cfg)])
+Finish(r) == pc[r] = "finish" /\ Feed([ev |-> "done", rq |-> r, status |-> IF DefaultEH(ms.cfg) THEN 500 ELSE 0, panicked |-> PanicEscapes(ms.cfg)])
              /\ pc' = [pc EXCEPT ![r] = "done"] /\ UNCHANGED <<nextScope, emitted>>
 
 Next == End \/ \E r \in 1..3 : Arrive(r) \/ ErrScope(r) \/ Mw(r) \/ ErrMw(r) \/ Handler(r) \/ PanicH(r) \/ Close(r) \/ CloseErr(r) \/ Finish(r)
